@@ -70,7 +70,15 @@ def execute(ex: Execution, wname: str, backend: str, idle_timeout: float, yieldi
         status_writes: list[str] = []
         _orig_update = store.update
 
+        status_writers: list[str] = []
+
         async def _logged_update(handler: Any) -> None:
+            import inspect
+
+            names = [f.function for f in inspect.stack()[1:12]]
+            status_writers.append("idle_announcement" if any(n in ("write_to_event_stream", "_record_idle") for n in names) and "send_event" not in names
+                                  else "send_event" if "send_event" in names else "reload" if "_ensure_active_run_locked" in names
+                                  else "release" if any("release" in n for n in names) else "other")
             status_writes.append(handler.status)
             await _orig_update(handler)
 
@@ -146,6 +154,10 @@ def execute(ex: Execution, wname: str, backend: str, idle_timeout: float, yieldi
         aborted_while_finishing = bool(ih.RELEASES) and ended_in_log and first_terminal is None
         if yielding:
             w = {**w, "terminal_status_overwritten_by_stale_row": stale_overwrite, "release_aborted_run_while_it_finished": aborted_while_finishing}
+            if stale_overwrite:
+                # who wrote the stale row back: a client's send_event bookkeeping (the recorded read-modify-write finding), or
+                # the run's own idle announcement (which the control loop awaits, so it cannot be overtaken by the run's end)
+                w["stale_row_written_by"] = sorted({status_writers[i] for i in range(first_terminal + 1, len(status_writes)) if status_writes[i] == "running"})
         for i, t_sent, task in sends:
             out = task_outcome(task)
             if out[0] != "result":
@@ -324,7 +336,7 @@ def programs(tier: str) -> list[Program]:
     # a store whose handler reads really suspend (network store): other tasks run between a read and what follows it
     for backend in (("memory",) if q else ("memory", "sqlite")):
         ps.append(Program(f"in_process/wait1/{backend}/yielding_store", {"workflow": "wait1", "backend": backend, "yielding": True},
-                          (lambda ex, backend=backend: execute(ex, "wait1", backend, 2.0, True)), max_dev=(3 if q else 4)))
+                          (lambda ex, backend=backend: execute(ex, "wait1", backend, 2.0, True)), max_dev=(4 if q else 6)))
     # ... and with several independent senders: three parties can meet at the per-run reload lock while one of them is
     # suspended inside it (releaser on its store read, a sender queued behind it, another sender arriving later)
     ps.append(Program("in_process/wait1_two_senders/memory/yielding_store", {"workflow": "wait1_two_senders", "backend": "memory", "yielding": True},
